@@ -1,5 +1,5 @@
 From Wencry Require Import Bytes FileModel ProcModel.
-From Wencry Require Export FileGlueText CliGlueText.
+From Wencry Require Export CliGlueText.
 From Wencry.Gen Require Import Opts.
 From Coq Require Import ZArith Lia ZifyBool ZifyN Zify.
 Local Open Scope N_scope.
